@@ -12,6 +12,7 @@ R-C01.2  get_updated_definition: each position's merged type is rewritten exactl
 R-C01.3  from_callable_and_traced_types: every traced name, the return and the yield type reach the signature
          update (after TypedDict replacement), and every generated TypedDict class stub is kept
 R-C01.4  trace(): the tracer is built from the same config (logger -> store, limit)
+R-C01.5  histories on one tracer object: every recorded type is inferred from the event's own value
 """
 from __future__ import annotations
 
@@ -195,3 +196,7 @@ def run(ctx: Ctx, repo: Repo, tier: str) -> None:
     rule_updated_definition(ctx, repo)
     rule_traced_types(ctx, repo)
     rule_trace_config(ctx, repo)
+    from .memo_rules import tracer_no_memory
+    tracer_no_memory(ctx, repo, "R-C01.5")
+    from .memo_rules import infer_no_memory
+    infer_no_memory(ctx, repo, "R-C01.5")
